@@ -59,6 +59,16 @@ class Callable_:
     self.__dict__.update(kw)
 
 
+class RecV:
+  """A locally created object: a record of symbolic fields (no aliasing: copied on write)."""
+
+  def __init__(self, cls, fields):
+    self.cls = cls
+    self.fields = dict(fields)
+    self.t = Ty('rec', (cls,))
+    self.meta = None
+
+
 def truthy(v):
   k = v.t.kind
   if k == 'bool':
@@ -318,7 +328,7 @@ class Engine:
     if m is None:
       raise Unsupported('expression %s at line %d' % (type(n).__name__, getattr(n, 'lineno', 0)))
     v = m(n, st, want) if m.__code__.co_argcount == 4 else m(n, st)
-    if want is not None and isinstance(v, V) and v.t != want:
+    if want is not None and isinstance(v, V) and not isinstance(want, str) and v.t != want:
       v = coerce(v, want)
     return v
 
@@ -347,6 +357,13 @@ class Engine:
       return self.bound[name]
     if name in st.env:
       return st.env[name]
+    if name == 'self' and self.u.get('self_str'):
+      return self.e_Attribute(ast.Attribute(value=ast.Name(id='self'), attr=self.u['self_str'],
+                                            lineno=n.lineno), st)
+    if name in self.u.get('ufs', {}):
+      return Callable_('uf', name=name)
+    if name in self.u.get('constructors', {}):
+      return Callable_('ctor', name=name)
     if name in self.inlines:
       return Callable_('inline', fdef=self.inlines[name])
     if name in self.consts:
@@ -410,6 +427,10 @@ class Engine:
     if dotted and dotted.split('.')[-1] in self.u.get('exceptions', EXC_NAMES):
       return Callable_('exc', name=dotted.split('.')[-1])
     base = self.ev(n.value, st)
+    if isinstance(base, RecV):
+      if n.attr not in base.fields:
+        raise Unsupported('no field %s on %s' % (n.attr, base.cls))
+      return base.fields[n.attr]
     return Callable_('method', base=base, name=n.attr, node=n.value)
 
   def e_BoolOp(self, n, st):
@@ -915,6 +936,23 @@ class Engine:
       return self.call_inline(callee.fdef, [self.ev(a, st) for a in n.args], st)
     if callee.kind == 'unit':
       return self.call_unit(callee.unit, n, st)
+    if callee.kind == 'uf':
+      argts, rett = self.u['ufs'][callee.name]
+      args = [coerce(self.ev(a, st), self.ty(t)) for a, t in zip(n.args, argts)]
+      f = uf('spec_' + callee.name, [sv.zsort(a.t) for a in args], sv.zsort(self.ty(rett)))
+      return V(self.ty(rett), f(*[a.z for a in args]))
+    if callee.kind == 'ctor':
+      args = [self.ev(a, st) for a in n.args]
+      saved = dict(self.bound)
+      self.bound.update({'arg%d' % i: a for i, a in enumerate(args)})
+      sp = self.spec
+      self.spec = True
+      try:
+        fields = {k: self.ev(parse_expr(t), st) for k, t in self.u['constructors'][callee.name].items()}
+      finally:
+        self.bound = saved
+        self.spec = sp
+      return RecV(callee.name, fields)
     if callee.kind == 'specfn':
       params, text = self.u['spec_funcs'][callee.name]
       args = [self.ev(a, st) for a in n.args]
@@ -977,6 +1015,14 @@ class Engine:
     if name == 'abs':
       a = self.ev(args[0], st)
       return sv.mk_int(z3.If(a.z < 0, -a.z, a.z))
+    if name == 'text_of' and self.spec:
+      if isinstance(args[0], ast.Name) and args[0].id == 'self' and 'self' not in self.bound:
+        return self.e_Attribute(ast.Attribute(value=ast.Name(id='self'), attr=self.u['self_str'],
+                                              lineno=0), st)
+      a = self.ev(args[0], st)
+      if isinstance(a, RecV):
+        return a.fields['text']
+      return a
     if name in ('intval', 'strval') and self.spec:
       a = self.ev(args[0], st)
       if a.t.kind == 'opt':
@@ -1290,6 +1336,15 @@ class Engine:
         raise Unsupported('assignment to undeclared field %s' % key)
       st.env[key] = coerce(val, t)
       return
+    if isinstance(target, ast.Attribute) and isinstance(target.value, ast.Name) and \
+        isinstance(st.env.get(target.value.id), RecV):
+      r = st.env[target.value.id]
+      if target.attr not in r.fields:
+        raise Unsupported('new field %s on %s' % (target.attr, r.cls))
+      nf = dict(r.fields)
+      nf[target.attr] = coerce(val, r.fields[target.attr].t)
+      st.env[target.value.id] = RecV(r.cls, nf)
+      return
     if isinstance(target, ast.Tuple):
       if val.t.kind != 'tuple' or len(val.t.args) != len(target.elts):
         raise Unsupported('tuple unpack')
@@ -1375,7 +1430,9 @@ class Engine:
     return [(st, NORMAL, None)]
 
   def s_Return(self, s, st):
-    val = self.ev(s.value, st, self.ret_type()) if s.value is not None else sv.mk_none()
+    rt_ = self.ret_type()
+    val = self.ev(s.value, st, rt_ if rt_ is None or rt_.kind != 'rec' else None) \
+        if s.value is not None else sv.mk_none()
     return self.with_raises(st, [(st, RETURN, val)])
 
   def ret_type(self):
@@ -1673,7 +1730,7 @@ class Engine:
       if oc == RETURN:
         n_normal += 1
         rt = self.ret_type()
-        if rt is not None:
+        if rt is not None and not isinstance(val, RecV):
           val = coerce(val, rt)
         for k, e in enumerate(u.get('ensures', [])):
           f = self.spec_formula(e, s2, old_env=old_env, bound={'result': val})
@@ -1803,6 +1860,6 @@ def parse_expr(text):
 MUTATORS = {'append', 'extend', 'add', 'update', 'remove', 'insert', 'pop', 'clear', 'discard'}
 BUILTINS = {'len', 'str', 'isinstance', 'set', 'list', 'min', 'max', 'abs', 'sorted', 'print',
             'range', 'int', 'dict', 'tuple'}
-SPEC_BUILTINS = {'isspace', 'intval', 'strval'}
+SPEC_BUILTINS = {'isspace', 'intval', 'strval', 'text_of'}
 EXC_NAMES = {'Exception', 'RuleCompileException', 'ParsingException', 'FunctorError',
              'AssertionError', 'ValueError', 'KeyError', 'TypeErrorCaughtException'}
